@@ -60,6 +60,9 @@ def run(ctx):
     ctx.add_tlc(r, "MC_IterDerived(expected-violation)", "sensitivity_witness")
     if r.invariant_violated != "NoReadOfMoved":
         raise core.ToolError("MC_IterDerived: expected NoReadOfMoved violation not reported")
+    # the machine's invariants hold for EVERY dimension N (inductive invariant, machine-checked): the replay binds the code
+    # to the machine for vek's 13 dimensions, the proof makes the machine's safety independent of N
+    core.tlaps(ctx, "Proof_Iter", deps=("VekIter",), expect_theorems=("Safety", "ExactlyOnceThm", "OrderThm"))
     path = os.path.join(ctx.work, "iter_cases.ndjson")
     total_edges = 0
     with open(path, "w") as f:
